@@ -1088,7 +1088,9 @@ class ModuleInliner:
         only directly in that loop): the helper's code with every `yield E` replaced by `T = E; BODY` and every `return` by `break`. BODY runs exactly where
         the consumer would have run it; leaving BODY through `break` / `return` / an exception abandons the helper at the yield, which has no clean-up to do
         (no try / with around a yield). `continue` in BODY is accepted only when the yield is the last statement of the helper's loop body."""
-        if not (isinstance(st, ast.For) and not st.orelse and isinstance(st.target, ast.Name) and isinstance(st.iter, ast.Call)):
+        if not (isinstance(st, ast.For) and not st.orelse and isinstance(st.iter, ast.Call)):
+            return None
+        if not (isinstance(st.target, ast.Name) or (isinstance(st.target, (ast.Tuple, ast.List)) and all(isinstance(e, ast.Name) for e in st.target.elts))):
             return None
         res = self._resolve(st.iter, caller)
         if res is None:
@@ -1176,13 +1178,14 @@ class ModuleInliner:
         except Bail as e:
             self.log.append(f"{caller.qual} :: {d.qual} not expanded: {e}")
             return None
-        tname = st.target.id
-        if any(isinstance(n, ast.Name) and n.id == tname for s2 in body + pre for n in ast.walk(s2)):
+        tnames = [st.target.id] if isinstance(st.target, ast.Name) else [e.id for e in st.target.elts]
+        tname = tnames[0] if isinstance(st.target, ast.Name) else None
+        if any(isinstance(n, ast.Name) and n.id in tnames for s2 in body + pre for n in ast.walk(s2)):
             return None
         body_stored = _stored_names(ast.Module(body=list(st.body), type_ignores=[]))
         in_loop = {id(n) for n in ast.walk(st)}
         after = sorted(((n.lineno, n.col_offset, isinstance(n.ctx, ast.Load)) for n in ast.walk(caller.node)
-                        if isinstance(n, ast.Name) and n.id == tname and id(n) not in in_loop and getattr(n, "lineno", 0) > (getattr(st, "end_lineno", None) or st.lineno)))
+                        if isinstance(n, ast.Name) and n.id in tnames and id(n) not in in_loop and getattr(n, "lineno", 0) > (getattr(st, "end_lineno", None) or st.lineno)))
         # the value the loop variable is left with is looked at afterwards (the next occurrence after the loop is a read)
         used_outside = bool(after) and after[0][2]
 
@@ -1195,10 +1198,10 @@ class ModuleInliner:
             def visit_Expr(self, node):
                 if isinstance(node.value, ast.Yield):
                     val = node.value.value if node.value.value is not None else ast.copy_location(ast.Constant(value=None), node)
-                    if isinstance(val, ast.Name) and val.id not in body_stored and tname not in body_stored and not used_outside:
+                    if tname is not None and isinstance(val, ast.Name) and val.id not in body_stored and tname not in body_stored and not used_outside:
                         # the loop variable is just another name for the helper's variable while the consumer's body runs
                         return [_Rename({tname: val.id}, {}).visit(copy.deepcopy(x)) for x in st.body]
-                    asg = ast.copy_location(ast.Assign(targets=[ast.copy_location(ast.Name(id=tname, ctx=ast.Store()), st.target)], value=val), node)
+                    asg = ast.copy_location(ast.Assign(targets=[copy.deepcopy(st.target)], value=val), node)
                     return [asg] + [copy.deepcopy(x) for x in st.body]
                 return node
 
